@@ -404,7 +404,7 @@ func keyTokenIndex(e *Env, v ssa.Value, depth int) (LE, bool) {
 		}
 	case *ssa.Call:
 		if b, ok := x.Call.Value.(*ssa.Builtin); ok && b.Name() == "append" && len(x.Call.Args) == 2 {
-			if _, ok := e.P.constPrefixOf(x.Call.Args[0]); ok {
+			if _, ok := e.P.constPrefixContent(x.Call.Args[0]); ok {
 				return argIndexLE(e, x.Call.Args[1])
 			}
 			return keyTokenIndex(e, x.Call.Args[0], depth+1)
@@ -428,7 +428,9 @@ func parserTables(c *Ctx, fn *ssa.Function) (map[string]roleTable, []string) {
 	var visit func(e *Env, depth int)
 	visit = func(e *Env, depth int) {
 		notePhis(e)
-		sndRcv := func(f Fact) bool { return !f.Lin && f.Pos && strings.HasPrefix(f.Atom, "eq(") && strings.Contains(f.Atom, "P:sndAddr") && strings.Contains(f.Atom, "P:rcvAddr") }
+		sndRcv := func(f Fact) bool {
+			return !f.Lin && f.Pos && strings.HasPrefix(f.Atom, "eq(") && strings.Contains(f.Atom, "P:sndAddr") && strings.Contains(f.Atom, "P:rcvAddr")
+		}
 		for _, b := range e.Fn.Blocks {
 			for _, in := range b.Instrs {
 				switch x := in.(type) {
